@@ -43,7 +43,7 @@ MC(cc, k) ==
     [alg |-> cc.alg, order |-> cc.order, tol_on |-> (cc.tol # "zero"), ret |-> TRUE, normalize |-> cc.normalize,
      linesearch |-> cc.linesearch, callback |-> cc.callback, fixed |-> SeqToSet(cc.fixed) \cap (0..(cc.order - 1)), init |-> cc.init,
      cap |-> k, stagn |-> cc.stagn, algorithm |-> cc.algorithm, sparsity |-> cc.sparsity, mask |-> cc.mask,
-     sampled |-> cc.sampled, penalised |-> cc.penalised]
+     sampled |-> cc.sampled, penalised |-> cc.penalised, reorth |-> cc.reorth]
 
 WellFormed(e) ==
     /\ e.alg \in Algs
